@@ -186,6 +186,13 @@ func modeGuardRule(c *Ctx) {
 				takesOpts = true
 			}
 		}
+		// a phase is a procedure: it answers with an error or a flag at most (a constructor or a query that takes
+		// the options is shared by phases of different modes by design)
+		for i := 0; i < sig.Results().Len(); i++ {
+			if t := sig.Results().At(i).Type(); !core.IsBool(t) && !core.IsErrorType(t) {
+				takesOpts = false
+			}
+		}
 		if !takesOpts {
 			continue
 		}
@@ -243,4 +250,819 @@ func itoa(n int) string {
 		n /= 10
 	}
 	return s
+}
+
+func init() {
+	register(Rule{
+		Name:  "ENC-NUMRENDER",
+		Props: []string{"C18", "C03", "C09"},
+		Doc:   "a number that becomes part of a name is rendered in decimal, not converted to the character with that code",
+		Run:   numRenderRule,
+	})
+	register(Rule{
+		Name:  "GUARD-COMMAOK",
+		Props: []string{"C09", "C15", "C17", "C19"},
+		Doc:   "the value of a comma-ok type assertion is used only where the flag is known to be true",
+		Run:   commaOkRule,
+	})
+}
+
+// numRenderRule (ENC-NUMRENDER): `string(rune('0'+n))` / `string(n)` with n an integer that is not a character
+// renders 10 as ':' and 65 as 'A'. The 'Mixin<N>' suffix (C18) and the numbered fallback names of Flatten (C03) are
+// specified with N in decimal. Every conversion to string of an integer expression in which a non-constant operand of
+// an integer type other than rune/byte takes part is reported; conversions of characters (loop variables over a
+// string, bytes of a buffer) are what the conversion is for.
+func numRenderRule(c *Ctx) {
+	seen := 0
+	for _, fi := range c.P.SortedFuncs() {
+		if !strings.HasPrefix(fi.Pkg.PkgPath, core.ModPath) {
+			continue
+		}
+		info := c.info(fi)
+		prop := "C09"
+		switch {
+		case c.below(fi, "Mixin"):
+			prop = "C18"
+		case c.below(fi, "Flatten"):
+			prop = "C03"
+		}
+		ast.Inspect(fi.Decl.Body, func(n ast.Node) bool {
+			call, ok := n.(*ast.CallExpr)
+			if !ok || len(call.Args) != 1 {
+				return true
+			}
+			tv, isT := info.Types[call.Fun]
+			if !isT || !tv.IsType() || !core.IsString(tv.Type) {
+				return true
+			}
+			at := info.TypeOf(call.Args[0])
+			b, isB := at.Underlying().(*types.Basic)
+			if at == nil || !isB || b.Info()&types.IsInteger == 0 {
+				return true
+			}
+			seen++
+			// a number takes part: an identifier (or call result) of an integer type that is no character type
+			var number ast.Expr
+			ast.Inspect(call.Args[0], func(m ast.Node) bool {
+				e, isE := m.(ast.Expr)
+				if !isE || number != nil {
+					return number == nil
+				}
+				if etv, has := info.Types[e]; has && etv.Value != nil {
+					return false // constants are fine
+				}
+				switch x := e.(type) {
+				case *ast.Ident, *ast.SelectorExpr, *ast.IndexExpr:
+					if t := info.TypeOf(e); t != nil {
+						if eb, isBasic := t.Underlying().(*types.Basic); isBasic && eb.Info()&types.IsInteger != 0 && eb.Kind() != types.Int32 && eb.Kind() != types.Uint8 {
+							if _, isTypeName := info.Uses[rootIdent(e)].(*types.TypeName); !isTypeName {
+								number = e
+							}
+						}
+					}
+					_ = x
+				case *ast.CallExpr:
+					// len(x), strconv results, … : numbers; conversions are looked through
+					if ctv, isConv := info.Types[x.Fun]; isConv && ctv.IsType() {
+						return true
+					}
+					if t := info.TypeOf(e); t != nil {
+						if eb, isBasic := t.Underlying().(*types.Basic); isBasic && eb.Info()&types.IsInteger != 0 && eb.Kind() != types.Int32 && eb.Kind() != types.Uint8 {
+							number = e
+						}
+					}
+					return false
+				}
+				return true
+			})
+			c.S.Decide(number == nil, prop, "ENC-NUMRENDER", fi.QName()+"/"+exprStr(call), c.P.Pos(call.Pos()),
+				"a character is converted to a string",
+				"the number "+exprStrOr(number)+" is converted to the character with that code ("+exprStr(call)+"): 10 comes out as ':' — a name or id built from it is not the documented '<N>' in decimal")
+			return true
+		})
+	}
+	for _, prop := range []string{"C18", "C03"} {
+		c.S.Hold(prop, "ENC-NUMRENDER", "conversions", "-", itoa(seen)+" conversions of an integer expression to string examined in the module: none renders a number as a character")
+	}
+}
+
+func exprStrOr(e ast.Expr) string {
+	if e == nil {
+		return ""
+	}
+	return exprStr(e)
+}
+
+// commaOkRule (GUARD-COMMAOK): after `v, ok := x.(T)` the value v is the zero T when ok is false. Every use of v must
+// lie where ok is known to be true: inside `if ok {…}`, to the right of `ok &&` / `!ok ||`, or after a branch on `!ok`
+// (alone or as an arm of a disjunction) that leaves. A use in the branch taken when the assertion failed hands the
+// zero value on — to an error callback (C15: "report it through the callback" names the parameter that cannot be
+// resolved), into the document (C17/C19) or to a dereference (C09).
+func commaOkRule(c *Ctx) {
+	n := 0
+	for _, fi := range c.P.SortedFuncs() {
+		if !strings.HasPrefix(fi.Pkg.PkgPath, core.ModPath) {
+			continue
+		}
+		info := c.info(fi)
+		ld := c.P.Locals(fi)
+		prop := nilProp(c, fi)
+		if prop != "C15" && prop != "C17" && prop != "C19" {
+			prop = "C09"
+		}
+		ast.Inspect(fi.Decl.Body, func(nd ast.Node) bool {
+			as, ok := nd.(*ast.AssignStmt)
+			if !ok || len(as.Lhs) != 2 || len(as.Rhs) != 1 {
+				return true
+			}
+			if _, isTA := core.Unparen(as.Rhs[0]).(*ast.TypeAssertExpr); !isTA {
+				return true
+			}
+			vo, oko := core.ObjOf(info, as.Lhs[0]), core.ObjOf(info, as.Lhs[1])
+			if vo == nil || oko == nil || vo.Name() == "_" || oko.Name() == "_" {
+				return true
+			}
+			// the flag must have this single definition (otherwise its value says nothing about this assertion)
+			if len(ld.Defs[oko]) != 1 {
+				return true
+			}
+			n++
+			// the region: from the assertion to the next definition of v
+			end := fi.Decl.Body.End()
+			for _, d := range ld.Defs[vo] {
+				if d.Pos > as.Pos() && d.Pos < end {
+					end = d.Pos
+				}
+			}
+			var bad []string
+			ast.Inspect(fi.Decl.Body, func(m ast.Node) bool {
+				id, isId := m.(*ast.Ident)
+				if !isId || info.Uses[id] != vo || id.Pos() <= as.End() || id.Pos() >= end {
+					return true
+				}
+				established := false
+				for _, cd := range append(c.conds(fi, id), c.shortCircuitConds(fi, id)...) {
+					if cd.Kind == core.CondBool && !cd.Neg && core.ObjOf(info, cd.Expr) == oko {
+						established = true
+					}
+				}
+				if !established {
+					bad = append(bad, c.P.Pos(id.Pos()))
+				}
+				return true
+			})
+			sort.Strings(bad)
+			c.S.Decide(len(bad) == 0, prop, "GUARD-COMMAOK", fi.QName()+"/"+vo.Name(), c.P.Pos(as.Pos()),
+				"every use of the asserted value lies where the flag is true",
+				"the value "+vo.Name()+" of the type assertion "+exprStr(as.Rhs[0])+" is used where "+oko.Name()+" is not known to be true ("+strings.Join(bad, ", ")+"): on a failed assertion the zero value is used")
+			return true
+		})
+	}
+	c.S.Note("GUARD-COMMAOK: %d comma-ok type assertions examined", n)
+}
+
+// shortCircuitConds: what is known at a node inside a boolean expression from the operands to its left —
+// in `a && n` the node is evaluated under a, in `a || n` under !a.
+func (c *Ctx) shortCircuitConds(fi *core.FuncInfo, n ast.Node) []core.Cond {
+	pm := c.parents(fi)
+	var out []core.Cond
+	for cur := n; cur != nil; cur = pm[cur] {
+		par, ok := pm[cur].(*ast.BinaryExpr)
+		if !ok {
+			if _, isExpr := pm[cur].(ast.Expr); !isExpr {
+				break
+			}
+			continue
+		}
+		if par.Y != cur || par.Op != token.LAND && par.Op != token.LOR {
+			continue
+		}
+		out = append(out, core.SplitCond(par.X, par.Op == token.LOR)...)
+	}
+	return out
+}
+
+func init() {
+	register(Rule{
+		Name:  "GUARD-RESOLVE",
+		Props: []string{"C15"},
+		Doc:   "the object taken for the target of a parameter $ref is what the whole JSON pointer of the $ref designates",
+		Run:   resolveWholeRule,
+	})
+	register(Rule{
+		Name:  "ENC-RAWKEY",
+		Props: []string{"C14"},
+		Doc:   "the operations index is keyed by the paths of the document as they are: lookups use the path as given; listings are not parsed back",
+		Run:   rawKeyRules,
+	})
+	register(Rule{
+		Name:  "EFFECT-SHORTCIRCUIT",
+		Props: []string{"C19", "C17", "C01"},
+		Doc:   "a call that modifies the document is not the right operand of && or ||",
+		Run:   shortCircuitRule,
+	})
+	register(Rule{
+		Name:  "NIL-ALLOC",
+		Props: []string{"C09"},
+		Doc:   "an analyzer built from a literal has its index maps allocated before anything is analysed into it",
+		Run:   nilAllocRule,
+	})
+	register(Rule{
+		Name:  "ORD-CARRIED",
+		Props: []string{"C07"},
+		Doc:   "inside a loop over a map, no value is computed from a collection the loop itself fills",
+		Run:   ordCarriedRule,
+	})
+}
+
+// resolveWholeRule (C15, GUARD-RESOLVE/whole-pointer): "every $ref to a shared parameter [is] replaced by that
+// parameter; when a parameter $ref … does not designate a parameter, [it is reported]". What is asserted to be a
+// spec.Parameter in the parameter merge must be the result of resolving the *whole* pointer of the $ref against the
+// document (jsonpointer.Pointer.Get), directly or through helpers all of whose returns are such results. A shortcut —
+// a lookup of one token in the shared parameters — takes `#/parameters/p/schema` for the parameter p.
+func resolveWholeRule(c *Ctx) {
+	fi, _, _, _ := c.paramMergeFn()
+	if fi == nil {
+		return // GUARD-PLACEHOLDER reports the missing anchor
+	}
+	n := 0
+	var fromGet func(g *core.FuncInfo, e ast.Expr, idx int, at token.Pos, depth int) (bool, string)
+	fromGet = func(g *core.FuncInfo, e ast.Expr, idx int, at token.Pos, depth int) (bool, string) {
+		if depth > 5 {
+			return false, "too deep"
+		}
+		info := c.info(g)
+		e = core.Unparen(e)
+		if core.IsNilExpr(info, e) {
+			return true, "" // the value of an error exit
+		}
+		switch x := e.(type) {
+		case *ast.Ident:
+			o := core.ObjOf(info, x)
+			if o == nil {
+				return false, exprStr(e)
+			}
+			any := false
+			for _, d := range c.P.Locals(g).Defs[o] {
+				if d.Pos > at {
+					continue
+				}
+				switch d.Kind {
+				case core.DefAssign:
+					any = true
+					if ok, why := fromGet(g, d.Expr, 0, d.Pos, depth+1); !ok {
+						return false, why
+					}
+				case core.DefMulti:
+					any = true
+					if ok, why := fromGet(g, d.Expr, d.Index, d.Pos, depth+1); !ok {
+						return false, why
+					}
+				case core.DefZero:
+				default:
+					return false, exprStr(e)
+				}
+			}
+			return any, exprStr(e)
+		case *ast.CallExpr:
+			callee := c.P.CalleeAny(g, x)
+			if callee == nil {
+				return false, exprStr(e)
+			}
+			if callee.Name() == "Get" && idx == 0 {
+				if sig, ok := callee.Type().(*types.Signature); ok && sig.Recv() != nil {
+					if pp, tn := core.NamedOf(sig.Recv().Type()); tn == "Pointer" && strings.HasSuffix(pp, "/jsonpointer") {
+						return true, ""
+					}
+				}
+			}
+			h := c.P.Funcs[callee]
+			if h == nil || h.Decl == nil || h.Decl.Body == nil {
+				return false, exprStr(x.Fun)
+			}
+			okAll, why, rets := true, "", 0
+			ast.Inspect(h.Decl.Body, func(m ast.Node) bool {
+				if _, isLit := m.(*ast.FuncLit); isLit {
+					return false
+				}
+				ret, isRet := m.(*ast.ReturnStmt)
+				if !isRet {
+					return true
+				}
+				rets++
+				switch {
+				case len(ret.Results) == 1 && idx >= 0:
+					// return f(…) handing on a tuple, or a single result
+					if ok, w := fromGet(h, ret.Results[0], idx, ret.Pos(), depth+1); !ok {
+						okAll, why = false, w
+					}
+				case idx < len(ret.Results):
+					if ok, w := fromGet(h, ret.Results[idx], 0, ret.Pos(), depth+1); !ok {
+						okAll, why = false, w
+					}
+				default:
+					okAll, why = false, "naked return in "+h.Name()
+				}
+				return true
+			})
+			return okAll && rets > 0, why
+		}
+		return false, exprStr(e)
+	}
+	info := c.info(fi)
+	ast.Inspect(fi.Decl.Body, func(nd ast.Node) bool {
+		ta, ok := nd.(*ast.TypeAssertExpr)
+		if !ok || ta.Type == nil || !core.IsSpecType(info.TypeOf(ta.Type), "Parameter") {
+			return true
+		}
+		n++
+		good, why := fromGet(fi, ta.X, 0, ta.Pos(), 0)
+		c.S.Decide(good, "C15", "GUARD-RESOLVE", fi.QName()+"/whole-pointer", c.P.Pos(ta.Pos()),
+			"the object asserted to be a parameter is the result of resolving the whole JSON pointer of the $ref",
+			"the object asserted to be a parameter ("+exprStr(ta.X)+") does not come, on every path, from resolving the whole JSON pointer of the $ref against the document ("+why+"): a $ref that points below a shared parameter, or elsewhere, can be answered with a shared parameter it does not designate")
+		return true
+	})
+	if n == 0 {
+		c.S.Note("GUARD-RESOLVE: no assertion to spec.Parameter in the parameter merge")
+	}
+}
+
+// rawKeyRules (C14):
+//   - ENC-RAWKEY/path-lookup: the per-method maps of the operations index are keyed by the path keys of the document
+//     as they are (IDX rules); a lookup by a path handed in by the caller uses it as given. Any transformation on the
+//     lookup side only (path.Clean, TrimSuffix, ToLower) misses `/pets/` or finds `/pets` instead.
+//   - ENC-SPLITJOIN: a listing entry "METHOD path" is not parsed back at its separator: a path may contain it.
+func rawKeyRules(c *Ctx) {
+	opsField, _ := getterField(c, "Operations")
+	if opsField == nil {
+		return // ENC-CASE reports the missing anchor
+	}
+	nLook := 0
+	for _, fi := range c.P.SortedFuncs() {
+		if fi.Pkg.PkgPath != core.ModPath {
+			continue
+		}
+		info := c.info(fi)
+		ld := c.P.Locals(fi)
+		// values that are a per-method map of the index: s.operations[m], or a local defined from it
+		isPerMethod := func(e ast.Expr) bool {
+			e = core.Unparen(e)
+			for i := 0; i < 3; i++ {
+				if ix, ok := e.(*ast.IndexExpr); ok {
+					if sel, isSel := core.Unparen(ix.X).(*ast.SelectorExpr); isSel && core.FieldOf(info, sel) == opsField {
+						return true
+					}
+					return false
+				}
+				o := core.ObjOf(info, e)
+				if o == nil {
+					return false
+				}
+				defs := ld.Defs[o]
+				if len(defs) != 1 || defs[0].Kind != core.DefAssign && defs[0].Kind != core.DefMulti {
+					return false
+				}
+				e = core.Unparen(defs[0].Expr)
+			}
+			return false
+		}
+		ast.Inspect(fi.Decl.Body, func(nd ast.Node) bool {
+			ix, ok := nd.(*ast.IndexExpr)
+			if !ok || !isPerMethod(ix.X) {
+				return true
+			}
+			// only reads keyed by something derived from a parameter
+			fromParam := false
+			ast.Inspect(ix.Index, func(m ast.Node) bool {
+				if id, isId := m.(*ast.Ident); isId {
+					if o := info.Uses[id]; o != nil && ld.Params[o] {
+						fromParam = true
+					}
+				}
+				return true
+			})
+			if !fromParam || !fi.Obj.Exported() {
+				return true
+			}
+			nLook++
+			_, plain := core.Unparen(ix.Index).(*ast.Ident)
+			c.S.Decide(plain, "C14", "ENC-RAWKEY", fi.QName()+"/path-lookup", c.P.Pos(ix.Pos()),
+				"the path is looked up as given",
+				"the per-method map of the operations index is looked up with "+exprStr(ix.Index)+": the index is keyed by the path keys of the document as they are, so a transformation on the lookup side alone misses the operation (or finds another one)")
+			return true
+		})
+	}
+	if nLook == 0 {
+		c.S.Note("ENC-RAWKEY: no exported lookup into a per-method map of the operations index by a parameter")
+	}
+	// ENC-SPLITJOIN: producers of composite strings
+	type producer struct {
+		fi  *core.FuncInfo
+		sep string
+	}
+	var prods []producer
+	for _, fi := range specQueryMethods(c) {
+		sig := fi.Obj.Type().(*types.Signature)
+		if sig.Results().Len() != 1 {
+			continue
+		}
+		sl, isSlice := sig.Results().At(0).Type().Underlying().(*types.Slice)
+		if !isSlice || !core.IsString(sl.Elem()) {
+			continue
+		}
+		info := c.info(fi)
+		seps := map[string]bool{}
+		ast.Inspect(fi.Decl.Body, func(nd ast.Node) bool {
+			call, ok := nd.(*ast.CallExpr)
+			if !ok {
+				return true
+			}
+			if callee := c.P.CalleeAny(fi, call); callee != nil && callee.FullName() == "fmt.Sprintf" && len(call.Args) == 3 {
+				if f, isC := core.ConstString(info, call.Args[0]); isC && strings.HasPrefix(f, "%s") && strings.HasSuffix(f, "%s") && len(f) > 4 {
+					seps[f[2:len(f)-2]] = true
+				}
+			}
+			return true
+		})
+		for sep := range seps {
+			prods = append(prods, producer{fi, sep})
+		}
+	}
+	nSplit := 0
+	for _, fi := range c.P.SortedFuncs() {
+		if !strings.HasPrefix(fi.Pkg.PkgPath, core.ModPath) {
+			continue
+		}
+		info := c.info(fi)
+		ld := c.P.Locals(fi)
+		for _, call := range calls(fi.Decl.Body) {
+			callee := c.P.CalleeAny(fi, call)
+			if callee == nil || callee.Pkg() == nil || callee.Pkg().Path() != "strings" {
+				continue
+			}
+			sep := ""
+			switch callee.Name() {
+			case "Split":
+				if len(call.Args) == 2 {
+					sep, _ = core.ConstString(info, call.Args[1])
+				}
+			case "Fields":
+				sep = " "
+			default:
+				continue
+			}
+			// the operand: an element of the result of a producer with that separator
+			o := core.ObjOf(info, call.Args[0])
+			if o == nil || sep == "" {
+				continue
+			}
+			for _, d := range ld.Defs[o] {
+				if d.Kind != core.DefRangeVal && d.Kind != core.DefAssign {
+					continue
+				}
+				src := core.Unparen(d.Expr)
+				if ix, isIx := src.(*ast.IndexExpr); isIx {
+					src = core.Unparen(ix.X)
+				}
+				if so := core.ObjOf(info, src); so != nil {
+					if sd := ld.Defs[so]; len(sd) == 1 && sd[0].Kind == core.DefAssign {
+						src = core.Unparen(sd[0].Expr)
+					}
+				}
+				pc, isCall := src.(*ast.CallExpr)
+				if !isCall {
+					continue
+				}
+				for _, p := range prods {
+					if c.P.StaticCallee(fi, pc) == p.fi.Obj && p.sep == sep {
+						nSplit++
+						c.S.Violate("C14", "ENC-SPLITJOIN", fi.QName()+"/"+p.fi.Name(), c.P.Pos(call.Pos()),
+							"an entry of "+p.fi.Name()+" (two strings joined by "+strconvQuote(sep)+") is split at every "+strconvQuote(sep)+": a path of the document may contain it, and the operation is then looked up under a truncated path")
+					}
+				}
+			}
+		}
+	}
+	c.S.Hold("C14", "ENC-SPLITJOIN", "listings", "-", "no listing of composite entries ("+itoa(len(prods))+" producers) is parsed back at its separator")
+	_ = nSplit
+}
+
+func strconvQuote(s string) string { return "\"" + s + "\"" }
+
+// shortCircuitRule (EFFECT-SHORTCIRCUIT): `done = done || fix(x)` stops calling fix once done is true. A call to a
+// module function that writes through its arguments (effect summaries) must not be the right operand of && or ||,
+// unless the left operand is a test of the same argument (a guard: `x != nil && fix(x)`).
+func shortCircuitRule(c *Ctx) {
+	e := effects(c)
+	n := 0
+	for _, fi := range c.P.SortedFuncs() {
+		if !strings.HasPrefix(fi.Pkg.PkgPath, core.ModPath) {
+			continue
+		}
+		prop := ""
+		switch {
+		case c.below(fi, "FixEmptyResponseDescriptions"):
+			prop = "C19"
+		case c.below(fi, "Mixin"):
+			prop = "C17"
+		case c.below(fi, "Flatten") && !c.onSpec(fi):
+			prop = "C01"
+		default:
+			continue
+		}
+		info := c.info(fi)
+		ast.Inspect(fi.Decl.Body, func(nd ast.Node) bool {
+			be, ok := nd.(*ast.BinaryExpr)
+			if !ok || be.Op != token.LAND && be.Op != token.LOR {
+				return true
+			}
+			for _, call := range calls(be.Y) {
+				g := c.P.Funcs[c.P.StaticCallee(fi, call)]
+				if g == nil || e.sum[g] == nil {
+					continue
+				}
+				var written []ast.Expr
+				for _, w := range e.sortedWrites(g) {
+					if w.root != "param" {
+						continue
+					}
+					if w.param >= 0 && w.param < len(call.Args) {
+						written = append(written, call.Args[w.param])
+					} else if w.param == -1 {
+						if sel, isSel := core.Unparen(call.Fun).(*ast.SelectorExpr); isSel {
+							written = append(written, sel.X)
+						}
+					}
+				}
+				if len(written) == 0 {
+					continue
+				}
+				n++
+				// a guard on the written argument itself
+				guard := false
+				for _, w := range written {
+					wo := rootIdent(w)
+					if u, isAddr := core.Unparen(w).(*ast.UnaryExpr); isAddr && u.Op == token.AND {
+						wo = rootIdent(u.X)
+					}
+					if wo == nil {
+						continue
+					}
+					ast.Inspect(be.X, func(m ast.Node) bool {
+						if id, isId := m.(*ast.Ident); isId && info.Uses[id] != nil && info.Uses[id] == info.Uses[wo] {
+							guard = true
+						}
+						return true
+					})
+				}
+				c.S.Decide(guard, prop, "EFFECT-SHORTCIRCUIT", fi.QName()+"/"+g.Name(), c.P.Pos(call.Pos()),
+					"the modifying call is guarded by a test of its own argument",
+					"the call "+exprStr(call)+" modifies what it is given, and it is the right operand of "+be.Op.String()+" after "+exprStr(be.X)+", which does not concern its argument: once the left operand decides, the call — and the modification — is skipped")
+			}
+			return true
+		})
+	}
+	for _, prop := range []string{"C19", "C17", "C01"} {
+		c.S.Hold(prop, "EFFECT-SHORTCIRCUIT", "operands", "-", itoa(n)+" modifying calls found as right operands of && / ||")
+	}
+}
+
+// nilAllocRule (C09, NIL-ALLOC): the analyzer's index maps are allocated by one method (the one COV-RESET checks: it
+// makes every map member). A Spec built from a composite literal outside that method must have it called before any
+// other method is called on it — a hand-picked subset of maps in the literal leaves the others nil, and the analysis
+// of a schema that carries the corresponding keyword panics ("assignment to entry in nil map").
+func nilAllocRule(c *Ctx) {
+	// the allocator: the method of *Spec with the most `recv.<…> = make(map…)` stores
+	var alloc *core.FuncInfo
+	best := 0
+	for _, fi := range c.P.SortedFuncs() {
+		sig := fi.Obj.Type().(*types.Signature)
+		if fi.Pkg.PkgPath != core.ModPath || sig.Recv() == nil || !core.IsModType(sig.Recv().Type(), "Spec") {
+			continue
+		}
+		k := len(c.freshAssignedFields(fi))
+		if k > best {
+			best, alloc = k, fi
+		}
+	}
+	if alloc == nil || best < 15 {
+		c.S.Undecided("C09", "NIL-ALLOC", "anchor", "-", "no method of Spec allocating the index maps found")
+		return
+	}
+	// methods that start by allocating (reload = reset + initialize)
+	allocFirst := map[*core.FuncInfo]bool{alloc: true}
+	for changed := true; changed; {
+		changed = false
+		for _, fi := range c.P.SortedFuncs() {
+			if allocFirst[fi] || fi.Decl.Recv == nil || fi.Decl.Body == nil {
+				continue
+			}
+			for _, st := range fi.Decl.Body.List {
+				es, ok := st.(*ast.ExprStmt)
+				if !ok {
+					break
+				}
+				call, ok := es.X.(*ast.CallExpr)
+				if !ok {
+					break
+				}
+				g := c.P.Funcs[c.P.StaticCallee(fi, call)]
+				if g != nil && allocFirst[g] {
+					allocFirst[fi] = true
+					changed = true
+					break
+				}
+				if g != nil && g.Decl.Recv != nil {
+					break // another method first
+				}
+				// a plain function call (a debug trace): look further
+			}
+		}
+	}
+	n := 0
+	for _, fi := range c.P.SortedFuncs() {
+		if fi.Pkg.PkgPath != core.ModPath || fi == alloc {
+			continue
+		}
+		info := c.info(fi)
+		pm := c.parents(fi)
+		ast.Inspect(fi.Decl.Body, func(nd ast.Node) bool {
+			lit, ok := nd.(*ast.CompositeLit)
+			if !ok || !core.IsModType(info.TypeOf(lit), "Spec") {
+				return true
+			}
+			// the variable it is stored in
+			var vo types.Object
+			for cur := ast.Node(lit); cur != nil; cur = pm[cur] {
+				if as, isAs := cur.(*ast.AssignStmt); isAs && len(as.Lhs) == 1 {
+					vo = core.ObjOf(info, as.Lhs[0])
+					break
+				}
+				if _, isStmt := cur.(ast.Stmt); isStmt {
+					break
+				}
+			}
+			if vo == nil {
+				return true
+			}
+			n++
+			// the first method called on it afterwards
+			var first *ast.CallExpr
+			for _, call := range calls(fi.Decl.Body) {
+				if call.Pos() <= lit.End() {
+					continue
+				}
+				sel, isSel := core.Unparen(call.Fun).(*ast.SelectorExpr)
+				if !isSel || core.ObjOf(info, sel.X) != vo {
+					continue
+				}
+				if g := c.P.Funcs[c.P.StaticCallee(fi, call)]; g == nil || g.Decl.Recv == nil {
+					continue
+				}
+				if first == nil || call.Pos() < first.Pos() {
+					first = call
+				}
+			}
+			ok2 := true
+			what := "no method is called on it here"
+			if first != nil {
+				g := c.P.Funcs[c.P.StaticCallee(fi, first)]
+				ok2 = allocFirst[g]
+				what = "the first method called on it is " + g.Name()
+			}
+			c.S.Decide(ok2, "C09", "NIL-ALLOC", fi.QName()+"/"+vo.Name(), c.P.Pos(lit.Pos()),
+				"the index maps are allocated ("+alloc.Name()+") before anything is analysed into the new analyzer",
+				"an analyzer is built from a literal and "+what+", not "+alloc.Name()+" (which allocates every index map): an index map the literal does not make stays nil, and analysing a schema that carries the corresponding keyword panics")
+			return true
+		})
+	}
+	if n < 2 {
+		c.S.Undecided("C09", "NIL-ALLOC", "floor", "-", "fewer than two analyzers built from a literal found (confirmed by hand: New and the partial analyzer of the import)")
+	}
+}
+
+// ordCarriedRule (C07, ORD-CARRIED): in the body of a loop over a map, a call hands a collection declared outside
+// the loop to a module function that both writes it and returns a non-boolean value: the value depends on what the
+// earlier iterations — in map order — put there (a "first free name" picked while gathering). The result must not
+// reach the output; sorting afterwards orders values that already carry the choice.
+func ordCarriedRule(c *Ctx) {
+	e := effects(c)
+	n := 0
+	for _, fi := range c.P.SortedFuncs() {
+		if !strings.HasPrefix(fi.Pkg.PkgPath, core.ModPath) || !c.below(fi, "Flatten") {
+			continue
+		}
+		info := c.info(fi)
+		ast.Inspect(fi.Decl.Body, func(nd ast.Node) bool {
+			rs, ok := nd.(*ast.RangeStmt)
+			if !ok || !core.IsMap(info.TypeOf(rs.X)) {
+				return true
+			}
+			for _, call := range calls(rs.Body) {
+				g := c.P.Funcs[c.P.StaticCallee(fi, call)]
+				if g == nil || e.sum[g] == nil {
+					continue
+				}
+				sig := g.Obj.Type().(*types.Signature)
+				if sig.Results().Len() == 0 {
+					continue
+				}
+				nonBool := false
+				for i := 0; i < sig.Results().Len(); i++ {
+					t := sig.Results().At(i).Type()
+					if !core.IsBool(t) && !core.IsErrorType(t) {
+						nonBool = true
+					}
+				}
+				if !nonBool {
+					continue
+				}
+				for _, w := range e.sortedWrites(g) {
+					if w.root != "param" || w.param < 0 || w.param >= len(call.Args) {
+						continue
+					}
+					ao := core.ObjOf(info, call.Args[w.param])
+					if ao == nil || ao.Pos() >= rs.Pos() && ao.Pos() <= rs.End() {
+						continue // declared inside the loop: not carried over
+					}
+					t := ao.Type().Underlying()
+					_, isMap := t.(*types.Map)
+					_, isSlice := t.(*types.Slice)
+					_, isPtr := t.(*types.Pointer)
+					if !isMap && !isSlice && !isPtr {
+						continue
+					}
+					n++
+					c.S.Violate("C07", "ORD-CARRIED", fi.QName()+"/"+g.Name(), c.P.Pos(call.Pos()),
+						"inside the loop over the map "+exprStr(rs.X)+", "+g.Name()+" computes a value from "+ao.Name()+", which it also fills: the value depends on the entries the earlier iterations left there, i.e. on the iteration order of the map")
+					break
+				}
+			}
+			return true
+		})
+	}
+	c.S.Hold("C07", "ORD-CARRIED", "loops", "-", "no value is computed, inside a loop over a map below Flatten, from a collection that the same call fills")
+	_ = n
+}
+
+func init() {
+	register(Rule{
+		Name:  "ENC-ROOTEDCLEAN",
+		Props: []string{"C01"},
+		Doc:   "a relative reference is not cleaned as if it were rooted",
+		Run:   rootedCleanRule,
+	})
+}
+
+// rootedCleanRule (C01, ENC-ROOTEDCLEAN): path.Clean / filepath.Clean of separator + x treats x as rooted: the
+// leading ".." segments of a relative reference are swallowed ("/../types.json" → "/types.json"), so a $ref from an
+// auxiliary document to its parent directory is rebased onto a file of the same name next to it. Joining (path.Join,
+// filepath.Join) cleans the *joined* path, where the parent segments cancel against the base directory as they should.
+func rootedCleanRule(c *Ctx) {
+	n := 0
+	for _, fi := range c.P.SortedFuncs() {
+		if !strings.HasPrefix(fi.Pkg.PkgPath, core.ModPath) {
+			continue
+		}
+		info := c.info(fi)
+		for _, call := range calls(fi.Decl.Body) {
+			callee := c.P.CalleeAny(fi, call)
+			if callee == nil || len(call.Args) != 1 {
+				continue
+			}
+			if fn := callee.FullName(); fn != "path.Clean" && fn != "path/filepath.Clean" {
+				continue
+			}
+			n++
+			be, ok := core.Unparen(call.Args[0]).(*ast.BinaryExpr)
+			rooted := false
+			if ok && be.Op == token.ADD {
+				left := core.Unparen(be.X)
+				for {
+					l2, isBin := left.(*ast.BinaryExpr)
+					if !isBin || l2.Op != token.ADD {
+						break
+					}
+					left = core.Unparen(l2.X)
+				}
+				if s, isC := core.ConstString(info, left); isC && (s == "/" || s == "\\") {
+					rooted = true
+				}
+				if conv, isConv := left.(*ast.CallExpr); isConv && len(conv.Args) == 1 {
+					if tv, has := info.Types[conv.Args[0]]; has && tv.Value != nil {
+						if ctv, isT := info.Types[conv.Fun]; isT && ctv.IsType() {
+							rooted = true // string(filepath.Separator)
+						}
+					}
+				}
+				if _, isC := core.ConstString(info, be.Y); isC {
+					rooted = false // a constant tail
+				}
+			}
+			c.S.Decide(!rooted, "C01", "ENC-ROOTEDCLEAN", fi.QName()+"/"+exprStr(call.Fun), c.P.Pos(call.Pos()),
+				"what is cleaned is not a relative part made to look rooted",
+				exprStr(call)+" cleans a relative reference behind a leading separator: its leading '..' segments are dropped, so a reference to the parent directory designates a file next to the referring document")
+		}
+	}
+	c.S.Hold("C01", "ENC-ROOTEDCLEAN", "calls", "-", itoa(n)+" calls of path.Clean / filepath.Clean examined: none cleans a relative part behind a leading separator")
 }
